@@ -162,7 +162,8 @@ theorem cmdOK_commandInit (large : Bool) (ins len delta code : Nat) (hins : ins 
         have := BV.Props.C18.dist_symbol_lt_alphabet 0 0 code (by omega) 24 h24
         simp only [distAlphabetSize]; simp; omega
   · rw [hpk1]; omega
-  · by_cases hdir : code < 16 + 0
+  · right
+    by_cases hdir : code < 16 + 0
     · have e := (BV.Props.C18.dist_direct_exact 0 0 code hdir).1
       rw [e]
       simp only []
